@@ -764,6 +764,17 @@ class Provides(Declaration):  # Really named ProvidesClass
     # Added to by ``moduleProvides``, et al
     _v_module_names = ()
 
+    def changed(self, originally_changed):
+        if originally_changed is not self:
+            # What our class implements (or what that extends) has changed,
+            # but the interfaces it implemented when we were created were
+            # stripped from our bases. We remain valid for the objects that
+            # already use us, but a declaration made from now on needs a new
+            # specification, so stop being shared.
+            if InstanceDeclarations.get(self.__args) is self:
+                del InstanceDeclarations[self.__args]
+        super().changed(originally_changed)
+
     def __repr__(self):
         # The typical way to create instances of this object is via calling
         # ``directlyProvides(...)`` or ``alsoProvides()``, but that's not the
